@@ -13,7 +13,7 @@ linearisation from `all_sequential_plans()` (capped) is collected.  Coq then
 """
 import json
 import time
-from itertools import islice
+from itertools import islice, product
 
 from harness import simexplore as sx
 from harness.gen.problems import GenProblem, SerProblem
@@ -30,6 +30,132 @@ META = {
 IMPORTS = ["UPV.Core.Expr", "UPV.Core.Eval", "UPV.Core.Interp", "UPV.Planning.Problem", "UPV.Planning.Sem",
            "UPV.Planning.Deorder", "UPV.Corr.Corr_C01", "UPV.Corr.Corr_C27"]
 LIN_CAP = 120
+
+
+# ---------------------------------------------------------------------------------------------- integer fluent parameters
+class SerProblemInt(SerProblem):
+    """SerProblem whose ground fluents also range over bounded-integer fluent parameters (problem.objects() is empty for
+    an int type, so the base class silently enumerates nothing for such a fluent).  A ground fluent's arguments are
+    Objects or Python ints; in Gallina an integer argument is `VNum`, which is what the model's evaluation of an
+    argument expression such as `i + 1` produces."""
+
+    def __init__(self, problem):
+        SerProblem.__init__(self, problem)
+        self.gfluents = []
+        for f in self.fluents:
+            doms = []
+            for pp in f.signature:
+                if pp.type.is_user_type():
+                    doms.append(list(problem.objects(pp.type)))
+                elif pp.type.is_int_type() and pp.type.lower_bound is not None and pp.type.upper_bound is not None:
+                    doms.append(list(range(pp.type.lower_bound, pp.type.upper_bound + 1)))
+                else:
+                    raise ValueError("fluent parameter type not supported: %s" % pp.type)
+            for args in product(*doms):
+                self.gfluents.append((f, tuple(args)))
+
+    def fexp(self, f, args):
+        em = self.problem.environment.expression_manager
+        return em.FluentExp(f, tuple(em.Int(a) if isinstance(a, int) else em.ObjectExp(a) for a in args))
+
+    def json_state(self, vals):
+        return {"%s(%s)" % (f.name, ",".join(str(o) if isinstance(o, int) else o.name for o in args)):
+                (None if v is None else str(v)) for (f, args), v in zip(self.gfluents, vals)}
+
+    def ser_keys(self):
+        n = self.names
+        return glist([gpair(gn(n.fl(f)), glist([ser_value(a, n) for a in args])) for f, args in self.gfluents])
+
+
+class GenIntProblem:
+    """Generated problems whose fluents take a bounded integer parameter and whose conditions / effect targets / values
+    index them with arithmetic over the action's integer parameter: on(i), on(i+1), on(i-1), on(2*i), on(c).
+    Fluent index type int[0,4], action parameter type int[1,2] (so every index expression stays inside the domain)."""
+
+    def __init__(self, rng):
+        from collections import OrderedDict
+        from unified_planning.environment import Environment
+        from unified_planning.model import Fluent, Problem, InstantaneousAction
+        self.rng = rng
+        self.env = env = Environment()
+        tm, em = env.type_manager, env.expression_manager
+        self.em = em
+        self.label = None
+        IDX, PAR = tm.IntType(0, 4), tm.IntType(1, 2)
+        p = self.problem = Problem("gi", env)
+        on = Fluent("on", tm.BoolType(), OrderedDict([("i", IDX)]), env)
+        cnt = Fluent("cnt", tm.IntType(), OrderedDict([("i", IDX)]), env)
+        g = Fluent("g", tm.BoolType(), environment=env)
+        p.add_fluent(on, default_initial_value=False)
+        p.add_fluent(cnt, default_initial_value=0)
+        p.add_fluent(g, default_initial_value=False)
+        for i in range(5):
+            if rng.random() < 0.5:
+                p.set_initial_value(on(i), True)
+            if rng.random() < 0.4:
+                p.set_initial_value(cnt(i), rng.randint(0, 2))
+
+        def idx(par):
+            r = rng.random()
+            if par is None or r < 0.15:
+                return em.Int(rng.randint(0, 4))
+            if r < 0.35:
+                return em.ParameterExp(par)
+            if r < 0.6:
+                return em.Plus(em.ParameterExp(par), 1)
+            if r < 0.8:
+                return em.Minus(em.ParameterExp(par), 1)
+            return em.Times(2, em.ParameterExp(par))
+
+        def cond(par):
+            r = rng.random()
+            if r < 0.4:
+                return on(idx(par))
+            if r < 0.65:
+                return em.Not(on(idx(par)))
+            if r < 0.85:
+                return em.LE(cnt(idx(par)), rng.randint(0, 2))
+            return em.Or(on(idx(par)), on(idx(par)))
+
+        self.actions = []
+        for ai in range(rng.randint(2, 3)):
+            haspar = rng.random() < 0.8
+            a = InstantaneousAction("a%d" % ai, OrderedDict([("i", PAR)] if haspar else []), env)
+            par = a.parameter("i") if haspar else None
+            for _ in range(rng.randint(0, 1)):
+                a.add_precondition(cond(par))
+            n, tries = rng.randint(1, 2), 0
+            while n > 0 and tries < 8:
+                tries += 1
+                c = cond(par) if rng.random() < 0.3 else True
+                try:
+                    r = rng.random()
+                    if r < 0.45:
+                        a.add_effect(on(idx(par)), rng.random() < 0.6, c)
+                    elif r < 0.65:
+                        a.add_increase_effect(cnt(idx(par)), 1, c)
+                    elif r < 0.85:
+                        a.add_effect(cnt(idx(par)), em.Plus(cnt(idx(par)), 1), c)
+                    else:
+                        a.add_effect(g, on(idx(par)), c)
+                    n -= 1
+                except Exception:  # noqa  (conflicting effects on the same lifted target)
+                    pass
+            if not a.effects:
+                a.add_effect(g, True)
+            p.add_action(a)
+            self.actions.append(a)
+        p.add_goal(cond(None))
+
+    def param_domain(self, t):
+        return [self.em.Int(i) for i in range(t.lower_bound, t.upper_bound + 1)]
+
+    def ground_instances(self):
+        out = []
+        for a in self.actions:
+            for args in product(*[self.param_domain(pp.type) for pp in a.parameters]):
+                out.append((a, tuple(args)))
+        return out
 
 
 # ---------------------------------------------------------------------------------------------- hand-written corpus
@@ -177,6 +303,54 @@ def hand_corpus():
         p.add_action(x)
     p.add_goal(g)
     out.append(sx.HandProblem(p, "conditional-forall"))
+    # 14-17. fluents with a bounded integer parameter, indexed by arithmetic over the action's integer parameter:
+    # the written / read ground fluent is only known after evaluating (the code: substituting and SIMPLIFYING) the argument
+    def ibase(label):
+        env = Environment()
+        tm = env.type_manager
+        p = Problem(label, env)
+        on = Fluent("on", tm.BoolType(), i=tm.IntType(0, 4), environment=env)
+        g = Fluent("g", tm.BoolType(), environment=env)
+        p.add_fluent(on, default_initial_value=False)
+        p.add_fluent(g, default_initial_value=False)
+        return env, env.expression_manager, tm, p, on, g, tm.IntType(1, 2)
+
+    # 14. write on(i+1), read on(i)
+    env, em, tm, p, on, g, PAR = ibase("int-arg-write-plus-one")
+    a = act(env, "shift", i=PAR); a.add_effect(on(em.Plus(a.parameter("i"), 1)), True)
+    b = act(env, "mark", i=PAR); b.add_precondition(on(b.parameter("i"))); b.add_effect(g, True)
+    p.add_action(a); p.add_action(b); p.add_goal(g)
+    out.append(sx.HandProblem(p, "int-arg-write-plus-one"))
+    # 15. read on(i-1) in a precondition, write on(c)
+    env, em, tm, p, on, g, PAR = ibase("int-arg-read-minus-one")
+    a = act(env, "set0"); a.add_effect(on(0), True)
+    b = act(env, "chk", i=PAR); b.add_precondition(on(em.Minus(b.parameter("i"), 1))); b.add_effect(g, True)
+    p.add_action(a); p.add_action(b); p.add_goal(g)
+    out.append(sx.HandProblem(p, "int-arg-read-minus-one"))
+    # 16. two writers on(2*i) / on(i+1) of the same ground fluent (i = 1: on(2)), then a reader
+    env, em, tm, p, on, g, PAR = ibase("int-arg-write-write-times")
+    a = act(env, "dbl", i=PAR); a.add_effect(on(em.Times(2, a.parameter("i"))), True)
+    b = act(env, "clr", i=PAR); b.add_effect(on(em.Plus(b.parameter("i"), 1)), False)
+    c = act(env, "fin"); c.add_precondition(em.Not(on(2))); c.add_effect(g, True)
+    for x in (a, b, c):
+        p.add_action(x)
+    p.add_goal(em.And(g, em.Not(on(2))))
+    out.append(sx.HandProblem(p, "int-arg-write-write-times"))
+    # 17. anti-dependency through arithmetic: reader of on(i+1) (initially true) before the writer of on(2*i)
+    env, em, tm, p, on, g, PAR = ibase("int-arg-read-then-write")
+    p.set_initial_value(on(2), True)
+    a = act(env, "use", i=PAR); a.add_precondition(on(em.Plus(a.parameter("i"), 1))); a.add_effect(g, True)
+    b = act(env, "del", i=PAR); b.add_effect(on(em.Times(2, b.parameter("i"))), False)
+    p.add_action(a); p.add_action(b); p.add_goal(em.And(g, em.Not(on(2))))
+    out.append(sx.HandProblem(p, "int-arg-read-then-write"))
+    # 18. conditional effect whose condition and value are indexed arithmetically; numeric fluent cnt(i)
+    env, em, tm, p, on, g, PAR = ibase("int-arg-cond-value")
+    cnt = Fluent("cnt", tm.IntType(), i=tm.IntType(0, 4), environment=env); p.add_fluent(cnt, default_initial_value=0)
+    a = act(env, "inc", i=PAR); a.add_increase_effect(cnt(em.Minus(a.parameter("i"), 1)), 2)
+    b = act(env, "cpy", i=PAR); b.add_effect(cnt(em.Plus(b.parameter("i"), 1)), em.Plus(cnt(em.Minus(b.parameter("i"), 1)), 1),
+                                             condition=em.LE(1, cnt(em.Minus(b.parameter("i"), 1))))
+    p.add_action(a); p.add_action(b); p.add_goal(em.Equals(cnt(2), 3))
+    out.append(sx.HandProblem(p, "int-arg-cond-value"))
     return out
 
 
@@ -260,7 +434,7 @@ def valid_plans(gen, rng, maxlen, budget, branch, want, exhaustive=False):
             longest.sort(key=lambda x: -len(x[0]))
             top = [x for x in longest if len(x[0]) == len(longest[0][0])]
             seq, st = rng.choice(top)
-            ser0 = SerProblem(problem)
+            ser0 = SerProblemInt(problem)
             goals = goal_from_state(gen, ser0, st, rng)
             if goals:
                 problem.clear_goals()
@@ -269,7 +443,7 @@ def valid_plans(gen, rng, maxlen, budget, branch, want, exhaustive=False):
                 rewritten = True
                 sim = UPSequentialSimulator(problem)
                 good = [s for s, st in seqs if len(s) >= 2 and is_goal(st)]
-    ser = SerProblem(problem)
+    ser = SerProblemInt(problem)
     s0 = ser.read_state(sim.get_initial_state())
     good = sorted(set(good), key=lambda s: (-len(s), s))
     if not exhaustive and len(good) > want * 6:
@@ -319,8 +493,8 @@ def convert(problem, insts, plan):
 
 def ser_case(ser, s0, insts, plan, obs):
     gi = [ser_inst(ser, insts[i]) for i in plan]
-    return "{| c_init := %s; c_plan := %s; c_raised := %s; c_edges := %s; c_lins := %s |}" % (
-        ser.ser_state(s0), glist(gi), gbool(obs["raised"] is not None),
+    return "{| c_init := %s; c_keys := %s; c_plan := %s; c_raised := %s; c_edges := %s; c_lins := %s |}" % (
+        ser.ser_state(s0), ser.ser_keys(), glist(gi), gbool(obs["raised"] is not None),
         glist([gpair(gi[a], gi[b]) for a, b in obs["edges"]]),
         glist([glist([gi[k] for k in lin]) for lin in obs["lins"]]))
 
@@ -371,9 +545,9 @@ def run(ctx):
     t_proofs = time.time()
     rng = ctx.rng
     if ctx.quick:
-        n_noinv, n_inv, maxlen, want, budget, branch = 30, 18, 4, 4, 200, 3
+        n_noinv, n_inv, n_int, maxlen, want, budget, branch = 30, 18, 30, 4, 4, 200, 3
     else:
-        n_noinv, n_inv, maxlen, want, budget, branch = 300, 200, 5, 6, 500, 3
+        n_noinv, n_inv, n_int, maxlen, want, budget, branch = 300, 200, 300, 5, 6, 500, 3
     sources = [("hand", hp, None) for hp in hand_corpus()]
     noinv = dict(invariants=False, bounded=False, max_actions=3)
     sources += [("noinv", None, dict(noinv)) for _ in range(n_noinv)]
@@ -381,12 +555,13 @@ def run(ctx):
     sources += [("noinv", None, dict(noinv, obj_fluents=False)) for _ in range(n_noinv)]
     sources += [("inv", None, dict(max_actions=3)) for _ in range(n_inv)]
     sources += [("inv", None, dict(max_actions=3, obj_fluents=False)) for _ in range(n_inv)]
+    sources += [("intarg", None, None) for _ in range(n_int)]
 
     pre, cases, owners = [], [], []
     stats = {g: {"problems": 0, "retries": 0, "skipped": 0, "no_plan": 0, "goal_rewritten": 0, "plans": 0, "raised_nested": 0,
                  "converted": 0, "linearisations": 0, "capped": 0, "plans_with_several_linearisations": 0,
                  "edges": 0, "len_hist": {}}
-             for g in ("hand", "noinv", "inv")}
+             for g in ("hand", "noinv", "inv", "intarg")}
     feat = {"cond": 0, "forall": 0, "incdec": 0, "quantified_pre": 0}
     pi = 0
     for group, hp, knobs in sources:
@@ -394,7 +569,7 @@ def run(ctx):
         for attempt in range(1 if hp is not None else 4):
             # many random problems have fewer than two executable instances: retry a few times (counted)
             if hp is None:
-                gen = GenProblem(rng, **knobs)
+                gen = GenIntProblem(rng) if group == "intarg" else GenProblem(rng, **knobs)
                 if len(gen.ground_instances()) < 2:
                     continue
             res = valid_plans(gen, rng, maxlen if hp is None else 4, budget, branch, want, exhaustive=hp is not None)
@@ -418,6 +593,12 @@ def run(ctx):
             feat["forall"] += any(e.is_forall() for e in a.effects)
             feat["incdec"] += any(e.is_increase() or e.is_decrease() for e in a.effects)
             feat["quantified_pre"] += any("forall" in str(c).lower() or "exists" in str(c).lower() for c in a.preconditions)
+        if hp is not None and len(plans) > 14:
+            # hand problems: every 2-step plan (the aimed-at corner) + a sample of the longer ones
+            short = [pl for pl in plans if len(pl) == 2]
+            longer = [pl for pl in plans if len(pl) > 2]
+            rng.shuffle(longer)
+            plans = short + sorted(longer[:max(0, 14 - len(short))])
         converted = [(plan, convert(problem, insts, plan)) for plan in plans]
         if hp is None and len(converted) > want:
             # keep the plans whose partial order has the most linearisations (and one that raised, if any)
